@@ -45,7 +45,7 @@ func writeEvidence(out *RunOutput, known []*KnownFinding, seed int) int {
 	var harnessSumm []map[string]interface{}
 	var notes []string
 	nviol := 0
-	os.MkdirAll(filepath.Join(*flagVerif, "replay"), 0755)
+	os.MkdirAll(filepath.Join(outRoot(), "replay"), 0755)
 	knownHit := map[string]int{}
 	for _, h := range out.Harnesses {
 		states += h.Paths
@@ -116,7 +116,7 @@ func writeEvidence(out *RunOutput, known []*KnownFinding, seed int) int {
 				continue
 			}
 			nviol++
-			rp := filepath.Join(*flagVerif, "replay", fmt.Sprintf("%s-%d.json", prop, nviol))
+			rp := filepath.Join(outRoot(), "replay", fmt.Sprintf("%s-%d.json", prop, nviol))
 			rb, _ := json.MarshalIndent(map[string]interface{}{"property": prop, "harness": h.Name, "assert": v.Assert, "inputs": v.Inputs, "message": v.Msg, "native": v.NativeOutcome}, "", " ")
 			os.WriteFile(rp, rb, 0644)
 			fmt.Printf("VIOLATION property=%s replay=%s\n", prop, rp)
@@ -189,9 +189,19 @@ func writeEvidence(out *RunOutput, known []*KnownFinding, seed int) int {
 		"violations": nviol,
 	}
 	b, _ := json.MarshalIndent(ev, "", " ")
-	os.MkdirAll(filepath.Join(*flagVerif, "evidence"), 0755)
-	os.WriteFile(filepath.Join(*flagVerif, "evidence", prop+".json"), b, 0644)
+	os.MkdirAll(filepath.Join(outRoot(), "evidence"), 0755)
+	os.WriteFile(filepath.Join(outRoot(), "evidence", prop+".json"), b, 0644)
 	return exit
+}
+
+// outRoot is where evidence/ and replay/ are written: the verification directory, unless a seeded
+// change is being evaluated against a scratch copy (VERIF_EVAL_DIR), which must not overwrite the
+// evidence of the real tree.
+func outRoot() string {
+	if d := os.Getenv("VERIF_EVAL_DIR"); d != "" {
+		return d
+	}
+	return *flagVerif
 }
 
 func firstLine(s string) string {
